@@ -35,6 +35,8 @@ type Profile struct {
 	FIFOPct                                                                                            int // chance that a delivery takes the oldest message
 	RestartPct                                                                                         int // chance per pick of a down node to restart it
 	ReadyLagPct                                                                                        int // chance that a node's Ready is not taken when chosen (messages pile up between Readys)
+	FavourPct                                                                                          int // hostile phases with a stalled node: chance that an entry-bearing MsgApp to any *other* node is lost (uncommitted tails reach only the slow node; with rival leaders this is what overwrites and restores one index)
+	SelfStallPct                                                                                       int // chance per hostile phase that one async node's storage acknowledgements are held back (written, but not yet stepped back into raft) for the phase and beyond
 	CalmMin, HostileMin                                                                                int // phase lengths (scheduler steps): calm in [CalmMin, 3*CalmMin], hostile in [HostileMin, 4*HostileMin]
 }
 
